@@ -5,6 +5,38 @@ from lib.common import *
 from checks.repair_common import scenarios_from_writer, pick
 
 
+def format_doc(v, ev):
+    """FORMAT.md against itself and against the library, on the one point where it gives a worked example of the index: the
+    `offsets` of a file.  (1) the run starts of the example's block listing are re-derived and compared with the sentence
+    that states them; (2) the example archive is encoded by the independent implementation with that reading and read by
+    the library."""
+    import re
+    doc = open("/repo/FORMAT.md").read()
+    listing = re.findall(r"^Off(\d+): \[(\w+) ID (\d+)\]", doc, re.M)
+    m = re.search(r"The `offsets` for the file with ID 1 will be ([^.:]*)[.:]", doc)
+    if not listing or not m:
+        raise ToolError("FORMAT.md: the worked example of `offsets` was not found (reworded?)")
+    runs, prev = [], None
+    for off, _typ, fid in listing:
+        if fid == "1" and prev != "1":
+            runs.append(int(off))
+        prev = fid
+    stated = [int(x) for x in re.findall(r"Off(\d+)", m.group(1))]
+    ev["format_doc"] = dict(example_blocks=len(listing), run_starts=runs, stated=stated)
+    if stated != runs:
+        v.violation(dict(check="format-doc", kind="offsets-example-lists-non-run-starts"),
+                    dict(engine="doc", run_starts_of_the_example=runs, stated_in_FORMAT_md=stated,
+                         note="the reader re-reads a block that is listed although it directly follows a listed one (mbt everyblock)"))
+    wd = workdir("c06-doc")
+    op = os.path.join(wd, "everyblock.json")
+    mbt("prod", "everyblock", op, timeout=600)
+    pr = json.load(open(op))["probes"]
+    ev["format_doc"]["probe"] = pr
+    good = [p for p in pr if p["index"].startswith("runs")]
+    if not good or "abcdef" not in good[0]["result"] or "abcdcdef" in good[0]["result"] or '"xy"' not in good[0]["result"].replace("\\", ""):
+        v.violation(dict(check="format-doc", kind="example-archive-misread"), dict(engine="everyblock", probes=pr))
+
+
 def main(tier):
     v = Verdict("C06", tier)
     ev = dict(tlc=[])
@@ -66,12 +98,13 @@ def main(tier):
         ev["gcm_runs"] = ev.get("gcm_runs", 0) + o["gcm"]["runs"]
         if o.get("sample") and not o["sample"]["ok"]:
             v.violation(dict(check="sample-archive"), dict(detail=o["sample"]))
+    format_doc(v, ev)
     log(f"[C06] {ev.get('layouts', 0)} archives decoded by the independent decoder and encoded by the independent encoder; "
         f"{len(splits)} GCM split schedules x 4 aad lengths = {ev.get('gcm_runs', 0)} comparisons; sample archive: {[o.get('sample') for o in outs if o.get('sample')]}")
     cov = dict(states=g.distinct + ev.get("trace_states", 0), transitions=g.generated,
                traces_validated_against_impl=ev.get("layouts", 0) + ev.get("gcm_runs", 0),
                samples=[dict(labels=chosen[0]["labels"]), dict(split=splits[len(splits) // 2] if splits else None)],
-               layouts_checked=ev.get("layouts", 0), gcm_split_schedules=len(splits), gcm_comparisons=ev.get("gcm_runs", 0),
+               layouts_checked=ev.get("layouts", 0), format_doc=ev.get("format_doc"), gcm_split_schedules=len(splits), gcm_comparisons=ev.get("gcm_runs", 0),
                tlc_runs=ev["tlc"], exhaustive=False,
                rule="Format.tla operators evaluated by TLC on the Writer model's state vs the segment list decoded from the "
                     "real bytes by an independent FORMAT.md implementation (both directions, 5 layer/recipient variants, "
